@@ -208,7 +208,7 @@ def cases(tier, seed):
             ('stext', [None, 'after', 'before']),
             ('analysis', [None, 'header', 'text']),
             ('seg_order', [None] + SEG_ORDERS),
-            ('via', ['path', 'handle-peeked', 'handle-twice', 'path-after-edit']),   # from an open file object that has been read from before; again after an in-place edit of the first load
+            ('via', ['path', 'handle-peeked', 'handle-twice', 'path-after-edit', 'handle-unlinked', 'handle-replaced']),   # from an open file object that has been read from before; again after an in-place edit of the first load
             ('offset_format', ['zero', 'left', 'right'])]             # offsets in TEXT zero-padded or blank-padded within their fields
     k = 2 if tier == 'quick' else 3
     bases = [dict(kind='int', widths=[16], byteord='4,3,2,1', rk=['full']),
@@ -301,6 +301,17 @@ def run_case(c):
                 d = FlowCal.io.FCSData(path)
             else:
                 with open(path, 'rb') as fh:
+                    if via == 'handle-unlinked':
+                        os.unlink(path)          # the open file object is all that is left of the file
+                    elif via == 'handle-replaced':
+                        # another acquisition has been written to the same path since the file was opened
+                        other = dict(lay, events=[[(v + 1) % 251 for v in row] for row in lay['events']]) if lay['datatype'] == 'I' else dict(lay, byteord=lay['byteord'])
+                        if lay['datatype'] != 'I':
+                            other['events'] = [list(reversed(row)) for row in reversed(lay['events'])]
+                        obuf, _ = fcsgen.build(dict(other))
+                        with open(path + '.new', 'wb') as fo:
+                            fo.write(obuf)
+                        os.replace(path + '.new', path)
                     if via == 'handle-peeked':
                         fh.read(6)               # e.g. the caller looked at the version string first
                     f = FlowCal.io.FCSFile(fh)
